@@ -415,7 +415,9 @@ def mypy_subexprs(n: Any):
 
 NAMES = ["a", "b", "c", "x", "y", "z", "foo", "_p", "Bar9", "ünï", "True", "None", "self"]
 ATTRS = ["attr", "copy", "x", "real", "_m", "ключ"]
-STRS = ["", "abc", "it's", 'say "hi"', "both ' and \"", "tab\there", "nl\n", "back\\slash", "{x}", "{{", "}", "ünï", "日本", "\x00\x7f", "\xa0\xad", "͸", "\U000e0001", "%d", "\\\"", "'", '"', " "]
+STRS = ["", "abc", "it's", 'say "hi"', "both ' and \"", "tab\there", "nl\n", "back\\slash", "{x}", "{{", "}", "ünï", "日本", "\x00\x7f", "\xa0\xad", "͸", "\U000e0001", "%d", "\\\"", "'", '"', " ",
+        # a backslash next to a quote, with and without the other quote present (repr() picks its delimiters by content)
+        "don\\'t", "\\'", "[\\'\\s]+", "a\\'b\\\\", "'\\", "\\\\'", "x\\\"y'", "\\n'"]
 BYTES = ["", "abc", "\\x00\\xff", 'a"b', "it\\'s \"q\"", "it's", "\\\\", "\\n"]
 INTS = ["0", "1", "7", "42", "255", "1000000", "100000000000000000000"]
 FLOATS = [1.5, 0.0, 2.0, 1e16, 1e-05, 3.141592653589793, 1e300]
@@ -1612,6 +1614,7 @@ CARRIER_EXPRS = [
     "lambda vv: vv + 1", "lambda vv=1: vv", "lambda *vv: vv", "(lambda: aa) if bb else cc", "aa if bb else lambda: cc",
     "aa < bb < cc", "(aa < bb) < cc", "aa < (bb < cc)", "aa | bb ^ cc & dd", "(aa | bb) ^ cc", "aa << bb + cc", "(aa << bb) + cc", "aa @ bb", "~aa ** 2", "(~aa) ** 2",
     "-aa ** -bb", "not not aa", "- -aa", "+-aa", "aa.bb(cc, *dd, ee=1, **ff)", "aa.bb.cc[dd].ee()", "'it\\'s' + \"q\\\"\"", "b'a\"b'", "'tab\\t\\x00é日本'", "'{x}'",
+    "\"don\\\\'t\"", "r\"[\\'\\s]+\"", "f\"{aa}\\\\'\"", "'a\\\\\\'b'", "b\"it\\\\'s\"", "'\\\\' + \"'\"", "lambda vv, ww=2: vv * ww", "lambda vv=(1, 2), *ww, xx=3, **yy: vv",
     "100000000000000000000", "0x1F", "1_000", "2.5", "1e16", "1e-07", "2j", "None", "True", "()", "[]", "{}", "{aa}", "(aa,)", "((aa,),)",
 ]
 CARRIERS = [
